@@ -33,8 +33,8 @@ type TargetSpec struct {
 type ShardSpec struct {
 	Ready       bool             `json:"ready"`
 	ReadyFrom   int              `json:"ready_from_cycle,omitempty"` // not ready before this cycle (multi-cycle runs)
-	StatusFail  string           `json:"status_fail,omitempty"`  // "", "503", "refused", "lost"
-	RuntimeFail string           `json:"runtime_fail,omitempty"` // same
+	StatusFail  string           `json:"status_fail,omitempty"`      // "", "503", "refused", "lost"
+	RuntimeFail string           `json:"runtime_fail,omitempty"`     // same
 	HashDiff    bool             `json:"hash_diff,omitempty"`
 	Push        string           `json:"push,omitempty"` // accept | nochange | reject | refused | lost
 	RereadFail  string           `json:"reread_fail,omitempty"`
@@ -47,10 +47,14 @@ type ShardSpec struct {
 }
 
 type ReplicaSpec struct {
-	ListErr       bool         `json:"list_err,omitempty"`
-	ScaleErrEarly bool         `json:"scale_err_early,omitempty"`
-	ScaleErrFinal bool         `json:"scale_err_final,omitempty"`
-	Shards        []*ShardSpec `json:"shards"`
+	ListErr       bool `json:"list_err,omitempty"`
+	ScaleErrEarly bool `json:"scale_err_early,omitempty"`
+	ScaleErrFinal bool `json:"scale_err_final,omitempty"`
+	// multi-cycle runs: the listing starts failing in this cycle (0-based, >0), and the replica is not
+	// returned at all in this cycle (a StatefulSet in rolling update / not ready is left out of the list)
+	ListErrFrom int          `json:"list_err_from_cycle,omitempty"`
+	AbsentIn    int          `json:"absent_in_cycle,omitempty"`
+	Shards      []*ShardSpec `json:"shards"`
 }
 
 type Scenario struct {
@@ -226,9 +230,48 @@ func Generate(tp *core.Tape, g Gen) *Scenario {
 			}
 		}
 	}
+	// drain flavour: scale-down enabled, every target held once in normal state and explored, the tail
+	// shard holds several targets of which some are currently failing their scrapes (a failing target is
+	// moved like any other and counts with the series of its last good scrape), healthy shards in front
+	if tp.Bool("drain_flavour", 1, 8) {
+		sc.MaxIdle = core.Pick(tp, "drain_max_idle", 30*time.Second, 5*time.Minute)
+		for _, rs := range sc.Replicas {
+			n := len(rs.Shards)
+			if n < 2 {
+				continue
+			}
+			for _, sh := range rs.Shards {
+				sh.Copies = map[uint64]*Copy{}
+			}
+			for i, t := range sc.Targets {
+				t.Active = true
+				series := szS[tp.Choose("drain_series", len(szS)/2+1)]
+				total := series + core.Pick(tp, "drain_total_extra", int64(0), 1, lim/4)
+				t.Exp = &ExpSpec{Health: "up", Series: series, Total: total}
+				holder := n - 1
+				if i >= 3 || (i > 0 && tp.Bool("drain_in_front", 1, 3)) {
+					holder = tp.Choose("drain_holder", n-1)
+				}
+				rs.Shards[holder].Copies[t.Hash] = &Copy{Health: core.Pick(tp, "drain_copy_health", "down", "up", "up"), Times: 50, Series: series, Total: total}
+			}
+		}
+	}
 	if g.MultiCycle {
 		sc.Cycles = 1 + tp.Weighted("cycles", 2, 3, 2)
 		if sc.Cycles > 1 {
+			if len(sc.Replicas) > 1 && tp.Bool("positions_shift", 1, 4) {
+				// in one later cycle the first replica is left out of the list while the second one's
+				// listing fails: whatever a coordinator remembers about "replica number i" is then wrong
+				c := 1 + tp.Choose("shift_cycle", sc.Cycles-1)
+				sc.Replicas[0].AbsentIn = c
+				sc.Replicas[1].ListErrFrom = c
+			} else {
+				for _, rs := range sc.Replicas {
+					if tp.Bool("list_err_later", 1, 6) {
+						rs.ListErrFrom = 1 + tp.Choose("list_err_from", sc.Cycles-1)
+					}
+				}
+			}
 			for _, rs := range sc.Replicas {
 				if tp.Bool("replica_ready_later", 1, 3) {
 					from := 1 + tp.Choose("ready_from", sc.Cycles-1)
